@@ -19,6 +19,17 @@ namespace libfive {
 namespace Solver
 {
 
+#ifdef LIBFIVE_VERIF
+/*  Verification hook: trace of the evaluator calls made by findRoot
+ *  (kind 0: value result, 1: one gradient entry, 2: end of gradient,
+ *   3: setVar argument, 4: entry / exit markers)  */
+void (*verif_trace)(int kind, const void* id, float value) = nullptr;
+#define LIBFIVE_VERIF_TRACE(k, id, v) \
+    do { if (verif_trace) verif_trace(k, id, v); } while (0)
+#else
+#define LIBFIVE_VERIF_TRACE(k, id, v)
+#endif
+
 static std::pair<float, Solution> findRoot(
         JacobianEvaluator& e, const Tape::Handle& tape,
         const Eigen::Vector3f pos, Solution vars, unsigned gas)
@@ -33,12 +44,14 @@ static std::pair<float, Solution> findRoot(
     }
 
     float r = e.value(pos, *tape);
+    LIBFIVE_VERIF_TRACE(0, nullptr, r);
     bool converged = false;
     while (!converged && fabs(r) >= EPSILON && gas && --gas)
     {
         // Evaluate and update our local gradient
         for (auto& d : e.gradient(pos, *tape))
         {
+            LIBFIVE_VERIF_TRACE(1, d.first, d.second);
             auto v = ds.find(d.first);
             if (v != ds.end())
             {
@@ -46,6 +59,7 @@ static std::pair<float, Solution> findRoot(
             }
         }
 
+        LIBFIVE_VERIF_TRACE(2, nullptr, 0);
         // Break if all of our gradients are nearly zero
         if (std::all_of(ds.begin(), ds.end(),
             [&EPSILON](decltype(ds)::value_type itr) {
@@ -72,10 +86,12 @@ static std::pair<float, Solution> findRoot(
             for (auto& v : vars)
             {
                 e.setVar(v.first, v.second - step * ds.at(v.first));
+                LIBFIVE_VERIF_TRACE(3, v.first, v.second - step * ds.at(v.first));
             }
 
             // Get new residual
             const float r_ = e.value(pos, *tape);
+            LIBFIVE_VERIF_TRACE(0, nullptr, r_);
 
             // Find change in residuals
             const auto diff = r - r_;
